@@ -56,7 +56,7 @@ func (h History) genDoc4() *types.GenesisDoc {
 		pk := lib.Key(k).PubKey()
 		vals = append(vals, types.GenesisValidator{Address: pk.Address(), PubKey: pk, Power: 10, Name: fmt.Sprintf("v%d", k)})
 	}
-	g := &types.GenesisDoc{GenesisTime: h.GenTime, ChainID: "pnode-chain4", InitialHeight: 1,
+	g := &types.GenesisDoc{GenesisTime: h.GenTime, ChainID: "pnode-chain4", InitialHeight: h.initial(),
 		ConsensusParams: types.DefaultConsensusParams(), Validators: vals}
 	if err := g.ValidateAndComplete(); err != nil {
 		panic(err)
@@ -71,7 +71,7 @@ func (h History) NewNodeHome4() (*Persist, error) {
 		return nil, err
 	}
 	p.TxPlan = func(inc int, height int64) []types.Tx {
-		txs := append([]types.Tx(nil), h.Txs[height]...)
+		txs := append([]types.Tx(nil), h.Txs[height-h.initial()+1]...)
 		if h.Salted && inc > 0 {
 			txs = append(txs, types.Tx(fmt.Sprintf("late-%d-%d", inc, height)))
 		}
@@ -311,6 +311,7 @@ func GenHistory4(t *rapid.T) History {
 	}
 	h.Salted = rapid.Bool().Draw(t, "salted")
 	h.GenTime = time.Now().Add(-time.Hour).UTC()
+	h.Initial = genInitial(t)
 	for i := rapid.IntRange(0, int(h.Heights)*2+1).Draw(t, "nscripts"); i > 0; i-- {
 		if rapid.IntRange(0, 2).Draw(t, "happy") == 0 {
 			h.Scripts = append(h.Scripts, HappyScript(rapid.IntRange(0, 2).Draw(t, "variant")))
